@@ -148,6 +148,46 @@ def handle (stream : String) (args : List String) : String :=
       let bit (f : Media → Media → Bool) := b01 (secs.all (fun p => f p.1 p.2))
       s!"{b01 (validAnswer o a)} n{b01 (o.media.length = a.sections.length)} al{bit secAligned} pt{bit secPtsOk} rx{bit secRtxOk} ex{bit secExtOk} mx{bit secMuxOk} di{bit secDirOk} su{bit secSetupOk} bu{b01 (bundleOk o.session.attrs a)}"
     | _, _ => "bad-args"
+  | "prim", [op, text] =>
+    -- the `str` primitives every model function is built from (text = `.` ++ coded string)
+    match dec (String.ofList (text.toList.drop 1)) with
+    | some t =>
+      let showOpt (o : Option Nat) := match o with | some n => toString n | none => "-"
+      match op with
+      | "u8" => showOpt (parseU8 t)
+      | "u16" => showOpt (parseU16 t)
+      | "u32" => showOpt (parseU32 t)
+      | "u64" => showOpt (parseU64 t)
+      | "ws" => let ts := splitWs t; if ts.isEmpty then "_" else "^".intercalate (ts.map enc)
+      | "trim" => "[" ++ enc (trim t) ++ "]"
+      | "slash" => "^".intercalate ((splitOn '/' t).map (fun x => "[" ++ enc x ++ "]"))
+      | "colon" => showAttr (Attr.fromLine t)
+      | "apt" => showOpt (parseApt t)
+      | "ci" => match splitOnce '|' t with
+          | some (a, b) => b01 (eqIgnoreAsciiCase a b)
+          | none => "bad"
+      | _ => "bad-op"
+    | none => "bad-text"
+  | "aptmap", [attrs] =>
+    match (splitList "^" attrs).mapM parseAttr with
+    | some as =>
+      let m := aptMap as
+      if m.isEmpty then "_" else ",".intercalate (m.map fun p => s!"{p.1}>{p.2}")
+    | none => "bad-args"
+  | "acaps", [sec] =>
+    match parseMedia sec with
+    | some m =>
+      let caps := toAudioCaps m
+      if caps.isEmpty then "_" else
+      "+".intercalate (caps.map fun a =>
+        let fm := match a.fmtp with | some f => enc f | none => "~"
+        let fb := if a.fbs.isEmpty then "_" else "^".intercalate (a.fbs.map enc)
+        s!"{a.pt},{enc a.name},{a.clock},{a.channels},{fm},{fb}")
+    | none => "bad-args"
+  | "vclock", [sec, pt] =>
+    match parseMedia sec, pt.toNat? with
+    | some m, some p => toString (remoteVideoClock m p)
+    | _, _ => "bad-args"
   | "rt", [text] =>
     match dec text with
     | some t =>
